@@ -183,7 +183,7 @@ def run(ck: Check):
         if ok:
             model_cases.append((ref, stream[-w:], ks_H(ref, stream[-w:]), exact_p(n, w, ks_H(ref, stream[-w:]))))
     # (4) sizes straddling 10 000: batch / incremental agreement (asymptotic branch is an oracle)
-    for nref, w in ((10001, 3), (5, 10001)) if not thorough else ((10001, 3), (5, 10001), (10000, 4), (12000, 50)):
+    for nref, w in ((10001, 3), (5, 10001), (10585, 73)) if not thorough else ((10001, 3), (5, 10001), (10000, 4), (12000, 50), (10585, 73), (10585, 72), (30006, 10002)):  # (10585, 73): n*m/(n+m) = 72.5 exactly
         ref = [rng.gauss(0, 1) for _ in range(nref)]
         stream = [rng.gauss(0.3, 1) for _ in range(w + 2)]
         d = IncrementalKSTest(window_size=w)
